@@ -469,6 +469,69 @@ class Prop(fw.PropBase):
                 out.append({'contigs': [['chr1', L]], 'reads': reads, 'runs': runs, 'wild': False, 'sweep': True})
         return out
 
+    def resched(self, lib, run):
+        """a run of `lib` with a schedule that fits the job count of lib's contigs"""
+        rng = self.rng
+        run = dict(run)
+        if rng.random() < 0.35 or run['b'] * run['k'] <= 0:
+            run.update(threads=rng.randint(1, 4), sched=None)
+        else:
+            njobs = sum(-(-l // (run['b'] * run['k'])) for _, l in lib['contigs'])
+            order = list(range(njobs))
+            rng.shuffle(order)
+            run.update(threads=1, sched=order)
+        return run
+
+    def variant(self, lib):
+        """the BAM a re-run pipeline step would write to the same path: longer contig / extra contig / contig removed"""
+        rng = self.rng
+        contigs = [list(c) for c in lib['contigs']]
+        reads = [dict(r) for r in lib['reads']]
+
+        def more(ci, lo, hi):
+            for _ in range(rng.randint(3, 8)):
+                pos = rng.randint(lo, hi - 1)
+                rl = rng.randint(1, min(10, contigs[ci][1] - pos))
+                reads.append({'c': ci, 'pos': pos, 'len': rl, 'span': rl, 'flag': 65, 'ds': rng.choice([pos, pos + rl - 1, None]),
+                              'mq': 60, 'sm': rng.choice(['c1', 'c2', 'c3']), 'mp': None, 'da': None})
+        how = rng.choice(['longer', 'longer', 'extra', 'extra', 'drop'])
+        if how == 'drop' and len(contigs) < 2:
+            how = 'longer'
+        if how == 'longer':
+            ci = rng.randrange(len(contigs))
+            L = contigs[ci][1]
+            contigs[ci][1] = L + rng.choice([1, 7, L, 3 * L + 5, 250])
+            more(ci, L, contigs[ci][1])
+        elif how == 'extra':
+            contigs.append(['chr%d' % (len(contigs) + 1), rng.choice([1, 30, 95, 300])])
+            more(len(contigs) - 1, 0, contigs[-1][1])
+        else:
+            contigs.pop()
+            reads = [r for r in reads if r['c'] < len(contigs)]
+        return {'contigs': contigs, 'reads': reads, 'runs': lib['runs'], 'wild': lib.get('wild', False)}
+
+    def gen_history(self):
+        """one path: count (two bins_per_job), count again without rewriting, rewrite with other contigs, count, ..."""
+        rng = self.rng
+        cur = self.gen_lib(wild=False)
+        first = cur
+        hist = []
+        for stepno in range(rng.randint(3, 5)):
+            rewrite = True
+            if stepno > 0:
+                what = rng.choice(['same', 'variant', 'variant', 'variant', 'fresh', 'back'])
+                if what == 'same':
+                    rewrite = False
+                elif what == 'variant':
+                    cur = self.variant(cur)
+                elif what == 'fresh':
+                    cur = self.gen_lib(wild=False)
+                else:
+                    cur = first
+            runs = [self.resched(cur, r) for r in rng.sample(cur['runs'], 2)]
+            hist.append({'contigs': cur['contigs'], 'reads': cur['reads'], 'runs': runs, 'rewrite': rewrite, 'wild': False})
+        return hist
+
     def gen_all(self):
         quick = self.tier == 'quick'
         rng = self.rng
@@ -519,14 +582,24 @@ class Prop(fw.PropBase):
                 reads.append([lo, lo + 3, s])
             regions.append({'len': L, 'bin': rng.choice([100, 500, 1000]),
                             'regions': rng.choice([None, [[0, cut], [cut, L]], [[cut, L]], [[0, cut]]]), 'reads': reads})
-        return {'libs': libs, 'jobs': jobs, 'filters': filters, 'merges': merges, 'regions': regions}
+        histories = [self.gen_history() for _ in range(12 if quick else 150)]
+        return {'libs': libs, 'histories': histories, 'jobs': jobs, 'filters': filters, 'merges': merges, 'regions': regions}
 
     def load_corpus(self):
         d = os.path.join(fw.VERIF, 'corpus', 'C12')
         out = []
         if os.path.isdir(d):
             for f in sorted(os.listdir(d)):
-                if f.endswith('.json'):
+                if f.endswith('.json') and not f.startswith('hist'):
+                    out.append(json.load(open(os.path.join(d, f))))
+        return out
+
+    def load_corpus_histories(self):
+        d = os.path.join(fw.VERIF, 'corpus', 'C12')
+        out = []
+        if os.path.isdir(d):
+            for f in sorted(os.listdir(d)):
+                if f.endswith('.json') and f.startswith('hist'):
                     out.append(json.load(open(os.path.join(d, f))))
         return out
 
@@ -536,7 +609,8 @@ class Prop(fw.PropBase):
         # split the libraries over a few processes
         from concurrent.futures import ThreadPoolExecutor
         n = 4
-        parts = [dict(libs=payload['libs'][i::n]) for i in range(n)]
+        payload['histories'] = self.load_corpus_histories() + payload['histories']
+        parts = [dict(libs=payload['libs'][i::n], histories=payload['histories'][i::n]) for i in range(n)]
         parts[0].update({k: payload[k] for k in ('jobs', 'filters', 'merges', 'regions')})
         with ThreadPoolExecutor(n) as ex:
             rs = list(ex.map(lambda p: fw.run_impl('impl_c12.py', p), parts))
@@ -545,6 +619,10 @@ class Prop(fw.PropBase):
         for i in range(n):
             libs[i::n] = rs[i]['libs']
         res['libs'] = libs
+        hs = [None] * len(payload['histories'])
+        for i in range(n):
+            hs[i::n] = rs[i]['histories']
+        res['histories'] = hs
         self.payload, self.impl_res = payload, res
         return payload, res
 
@@ -558,6 +636,17 @@ class Prop(fw.PropBase):
                 raise fw.Broken('correspondence', 'harness could not write a BAM: %s' % lr['error'])
             for run, rr in zip(lib['runs'], lr['runs']):
                 flat.append((lib, run, rr))
+        n_lib_runs = len(flat)
+        hist_index = []   # per history: positions in flat
+        for hist, hr in zip(payload['histories'], res['histories']):
+            pos = []
+            for step, sr in zip(hist, hr):
+                if 'error' in sr:
+                    raise fw.Broken('correspondence', 'harness could not write a BAM (history): %s' % sr['error'])
+                for run, rr in zip(step['runs'], sr['runs']):
+                    pos.append(len(flat))
+                    flat.append((step, run, rr))
+            hist_index.append(pos)
         n_pre = sum(1 for lib, run, rr in flat if py_pre(lib, run))
         nontrivial = set()
         for lib, run, rr in flat:
@@ -572,13 +661,18 @@ class Prop(fw.PropBase):
             'evaluations': len(flat) + len(payload['jobs']) + len(payload['filters']) + len(payload['merges']) + len(payload['regions']),
             'distinct_nontrivial': len(nontrivial) + len(nt_jobs) + len(nt_merges),
             'distinct_nontrivial_breakdown': {'pipeline': len(nontrivial), 'job_lists': len(nt_jobs), 'merges': len(nt_merges)},
-            'rule': 'pipeline runs: one synthetic BAM (1-3 contigs, 4-45 records, flags/tags/MAPQ varied, sites on job '
+            'rule': 'histories: ONE path per history counted repeatedly in one process, rewritten (BAM + index) between steps with a longer '
+                    'contig / an extra contig / a contig removed / a fresh BAM, each count compared with the model of the BAM as it is at '
+                    'that moment. pipeline runs: one synthetic BAM (1-3 contigs, 4-45 records, flags/tags/MAPQ varied, sites on job '
                     'boundaries) through obtain_counts(generate_commands(..)) per (bins_per_job, max_fragment_size, schedule); '
                     'non-trivial = at least 2 jobs and at least 2 counted records; distinct by hash of (model input, cells); job-list cases '
                     'count when they have at least 2 jobs, merge cases when two job results share a bin id; filter cases are not counted. '
                     'kernels: generate_commands job lists (exhaustive small + large lengths), read_counts (exhaustive over flags), '
                     'obtain_counts merge on prepared colliding job results, get_binned_counts regions (D15)',
             'pipeline_runs': len(flat), 'libraries': len(libs),
+            'histories': len(payload['histories']), 'history_runs': len(flat) - n_lib_runs,
+            'history_rewrites_changing_contigs': sum(1 for h in payload['histories'] for a, b in zip(h, h[1:])
+                                                     if b.get('rewrite', True) and a['contigs'] != b['contigs']),
             'precondition_hit_rate': round(n_pre / max(1, len(flat)), 4),
             'schedules': {'real_pool': sum(1 for _, run, _ in flat if run.get('sched') is None),
                           'prescribed_order': sum(1 for _, run, _ in flat if run.get('sched') is not None)},
@@ -604,6 +698,11 @@ class Prop(fw.PropBase):
         mo = fw.run_model('C12', 0, ins)
         mpre = fw.run_model('C12', 1, [i[:2] for i in ins])
         mdecl = fw.run_model('C12', 2, [i[:2] for i in ins])
+        for pos in hist_index:
+            if pos:
+                mh = fw.run_model('C12', 7, [[ins[i] for i in pos]])[0]
+                if mh != [mo[i] for i in pos]:
+                    dis.append({'fn': 'model', 'what': 'run_history differs from the per-step model outputs', 'positions': pos})
         spec_checked = 0
         for (lib, run, rr), inp, m, mp_, md in zip(flat, ins, mo, mpre, mdecl):
             tag = {'fn': 'obtain_counts(generate_commands)', 'lib': {k: lib[k] for k in ('contigs', 'reads')}, 'run': run}
@@ -754,6 +853,24 @@ def _search(self):
                        rr.get('error') or 'cells (key, contig, bin_start, bin_end, sample) -> n differ from the count of passing records: %r' % (diff,)),
             'input': {'contigs': lib['contigs'], 'reads': lib['reads'], 'run': run},
             'impl': rr.get('error') or sorted((got or {}).items()), 'expected': sorted(exp.items())})
+    # 1b. histories: every count must be the declarative matrix of the BAM as it is at that moment
+    hbad = None
+    for hist, hr in zip(payload.get('histories', []), res.get('histories', [])):
+        for si, (step, sr) in enumerate(zip(hist, hr)):
+            for ri, (run, rr) in enumerate(zip(step['runs'], sr.get('runs', []))):
+                if not py_pre(step, run):
+                    continue
+                got = canon_cells(step, run, rr['cells']) if 'cells' in rr else None
+                if got != py_spec(step, run):
+                    size = sum(len(x['reads']) for x in hist[:si + 1])
+                    if hbad is None or size < hbad[0]:
+                        hbad = (size, hist, si, ri)
+                    break
+            else:
+                continue
+            break
+    if hbad:
+        self.witnesses.append(self.history_witness(*hbad[1:]))
     # 2. job lists
     best = None
     for (lens, b, k), rj in zip(payload['jobs'], res['jobs']):
@@ -820,6 +937,48 @@ def _shrink(self, lib, run, rr):
     return {k: v for k, v in lib.items() if k != 'runs'}, run, rr
 
 
+def _history_witness(self, hist, si, ri):
+    """shrink a failing history: keep the failing step (one run) and the fewest earlier steps (one run each) that still
+    make it fail when replayed in one fresh process; then say whether the same BAM counted in a fresh process is right"""
+    def strip(step, runs):
+        return {'contigs': step['contigs'], 'reads': step['reads'], 'runs': runs, 'rewrite': True}
+
+    def fails(h):
+        out = fw.run_impl('impl_c12.py', {'histories': [h]})['histories'][0]
+        step, sr = h[-1], out[-1]
+        rr = sr['runs'][0] if 'runs' in sr else sr
+        got = canon_cells(step, step['runs'][0], rr['cells']) if 'cells' in rr else None
+        return got != py_spec(step, step['runs'][0]), rr
+    # materialise rewrite=False steps (content of the previous step)
+    last = strip(hist[si], [hist[si]['runs'][ri]])
+    prefix = [strip(x, x['runs'][:1]) for x in hist[:si]] + ([strip(hist[si], hist[si]['runs'][:ri])] if ri else [])
+    full = prefix + [last]
+    bad, rr = fails(full)
+    best, best_rr = full, rr
+    if bad:
+        alone, rr_alone = fails([last])
+        if alone:
+            best, best_rr = [last], rr_alone
+        else:
+            for j in range(len(prefix) - 1, -1, -1):          # one earlier step is usually enough
+                b2, rr2 = fails([prefix[j], last])
+                if b2:
+                    best, best_rr = [prefix[j], last], rr2
+                    break
+    step, run = best[-1], best[-1]['runs'][0]
+    exp = py_spec(step, run)
+    got = canon_cells(step, run, best_rr['cells']) if 'cells' in best_rr else None
+    diff = sorted(set((got or {}).items()) ^ set(exp.items()))[:6]
+    return {'key': 'history:%s' % ('stale' if len(best) > 1 else 'cells'),
+            'what': 'one process, one path: %s; the last count (bin_size=%d, bins_per_job=%d, threads=%d) gives total %s but the BAM on disk '
+                    'holds %d countable records; differing cells: %r%s'
+                    % (' then '.join('BAM with contigs %r counted (bins_per_job=%s)' % (x['contigs'], [r['k'] for r in x['runs']]) for x in best),
+                       run['b'], run['k'], run['threads'], sum((got or {}).values()) if got is not None else best_rr.get('error'),
+                       sum(exp.values()), diff,
+                       '' if len(best) == 1 else ' (the same BAM counted alone in a fresh process is correct: the result depends on what was counted before)'),
+            'input': {'history': best}, 'impl': best_rr.get('error') or sorted((got or {}).items()), 'expected': sorted(exp.items())}
+
+
 def _replay_known(self, finding):
     key = finding.get('key')
     if key == 'D15-region-edge':
@@ -838,4 +997,5 @@ def _replay_known(self, finding):
 
 Prop.search = _search
 Prop.shrink = _shrink
+Prop.history_witness = _history_witness
 Prop.replay_known = _replay_known
